@@ -674,6 +674,23 @@ std::vector<Workload> CuratedWorkloads() {
     w.legacy = k == 2 ? 3 : 2;
     out.push_back(w);
   }
+  // Shallow kd-trees (2 and 4 quantization bits): every leaf is reached after a
+  // handful of steps, so an inflated payload point count turns into output
+  // growth within the quick step budget (defect #10).
+  for (int k = 0; k < 2; ++k) {
+    Workload w;
+    w.kind = 1;
+    w.topo = 1;
+    w.n = 4 + 6 * k;
+    w.gseed = ++gs;
+    AttDesc pos;
+    w.atts.push_back(pos);
+    w.method = 1;
+    w.qb[0] = 2 + 2 * k;
+    w.espeed = w.dspeed = 4 - 3 * k;
+    w.legacy = 3;
+    out.push_back(w);
+  }
   // Several attribute decoders with their own connectivity data (speed < 6), a
   // seam-less per-vertex attribute that does not use a mesh prediction scheme
   // next to an attribute with a seam on every edge (three points per face):
